@@ -1280,6 +1280,26 @@ VARIANTS += [
          edits=[dict(file='ipa-core/src/report/hybrid.rs', find='\n        let mut ct_mk: GenericArray<u8, CTMKLength> =\n            *GenericArray::from_slice(self.mk_ciphertext());\n        let sk = key_registry\n            .private_key(self.key_id())\n            .ok_or(CryptError::NoSuchKey(self.key_id()))?;\n        let info =\n            HybridImpressionInfo::from_bytes(&self.data[Self::INFO_OFFSET..]).map_err(|e| {\n                InvalidHybridReportError::DeserializationError("HybridImpressionInfo", e.into())\n', replace='\n        let mut ct_mk: GenericArray<u8, CTMKLength> =\n            *GenericArray::from_slice(self.mk_ciphertext());\n        let key_id = self.key_id();\n        let Some(sk) = key_registry.private_key(key_id) else {\n            return Err(CryptError::NoSuchKey(key_id).into());\n        };\n        let info =\n            HybridImpressionInfo::from_bytes(&self.data[Self::INFO_OFFSET..]).map_err(|e| {\n                InvalidHybridReportError::DeserializationError("HybridImpressionInfo", e.into())\n'), dict(file='ipa-core/src/report/hybrid.rs', find='\n        let mut ct_mk: GenericArray<u8, CTMKLength> =\n            *GenericArray::from_slice(self.mk_ciphertext());\n        let sk = key_registry\n            .private_key(self.key_id())\n            .ok_or(CryptError::NoSuchKey(self.key_id()))?;\n        let info =\n            HybridConversionInfo::from_bytes(&self.data[Self::INFO_OFFSET..]).map_err(|e| {\n                InvalidHybridReportError::DeserializationError("HybridConversionInfo", e.into())\n', replace='\n        let mut ct_mk: GenericArray<u8, CTMKLength> =\n            *GenericArray::from_slice(self.mk_ciphertext());\n        let key_id = self.key_id();\n        let Some(sk) = key_registry.private_key(key_id) else {\n            return Err(CryptError::NoSuchKey(key_id).into());\n        };\n        let info =\n            HybridConversionInfo::from_bytes(&self.data[Self::INFO_OFFSET..]).map_err(|e| {\n                InvalidHybridReportError::DeserializationError("HybridConversionInfo", e.into())\n')]),
 ]
 
+# round B3 (C01, C05, C07, C12)
+VARIANTS += [
+    dict(prop="C01", name="group-explicit-entry-match", benign=True,
+         edits=[dict(file='ipa-core/src/protocol/hybrid/agg.rs', find='use std::collections::BTreeMap;\n\nuse futures::{StreamExt, TryStreamExt, stream};\n\n', replace='use std::collections::{BTreeMap, btree_map::Entry};\n\nuse futures::{StreamExt, TryStreamExt, stream};\n\n'), dict(file='ipa-core/src/protocol/hybrid/agg.rs', find='    let mut reports_by_matchkey: BTreeMap<u64, MatchEntry<BK, V>> = BTreeMap::new();\n\n    for report in reports {\n        reports_by_matchkey\n            .entry(report.match_key)\n            .and_modify(|e| e.add_report(report.clone().into()))\n            .or_insert(MatchEntry::Single(report.into()));\n    }\n\n    // we only keep the reports from match_keys that provided exactly 2 reports\n', replace='    let mut reports_by_matchkey: BTreeMap<u64, MatchEntry<BK, V>> = BTreeMap::new();\n\n    for report in reports {\n        match reports_by_matchkey.entry(report.match_key) {\n            Entry::Occupied(mut seen) => seen.get_mut().add_report(report.into()),\n            Entry::Vacant(slot) => {\n                slot.insert(MatchEntry::Single(report.into()));\n            }\n        }\n    }\n\n    // we only keep the reports from match_keys that provided exactly 2 reports\n')]),
+    dict(prop="C01", name="pair-destructured-in-closure-head", benign=True,
+         edits=[dict(file='ipa-core/src/protocol/hybrid/agg.rs', find='        return Ok(Vec::new());\n    }\n\n    let chunk_size =\n        non_zero_prev_power_of_two(TARGET_PROOF_SIZE / (BK::BITS as usize + V::BITS as usize));\n\n    let ctx = ctx.set_total_records(TotalRecords::specified(report_pairs.len())?);\n\n', replace='        return Ok(Vec::new());\n    }\n\n    let bits_per_pair = BK::BITS as usize + V::BITS as usize;\n    let chunk_size = non_zero_prev_power_of_two(TARGET_PROOF_SIZE / bits_per_pair);\n\n    let ctx = ctx.set_total_records(TotalRecords::specified(report_pairs.len())?);\n\n'), dict(file='ipa-core/src/protocol/hybrid/agg.rs', find='\n    let agg_work = stream::iter(report_pairs)\n        .enumerate()\n        .map(|(idx, reports)| {\n            let agg_ctx = agg_ctx.clone();\n            async move {\n                let (breakdown_key, _) = integer_add::<_, EightBitStep, 1>(\n                    agg_ctx.narrow(&AggregateReportsStep::AddBK),\n                    idx.into(),\n                    &reports[0].breakdown_key.to_bits(),\n                    &reports[1].breakdown_key.to_bits(),\n                )\n                .await?;\n                let (value, _) = integer_add::<_, EightBitStep, 1>(\n                    agg_ctx.narrow(&AggregateReportsStep::AddV),\n                    idx.into(),\n                    &reports[0].value.to_bits(),\n                    &reports[1].value.to_bits(),\n                )\n                .await?;\n                Ok::<_, Error>(AggregateableHybridReport::<BK, V> {\n', replace='\n    let agg_work = stream::iter(report_pairs)\n        .enumerate()\n        .map(|(idx, [first, second])| {\n            let agg_ctx = agg_ctx.clone();\n            async move {\n                let (breakdown_key, _) = integer_add::<_, EightBitStep, 1>(\n                    agg_ctx.narrow(&AggregateReportsStep::AddBK),\n                    idx.into(),\n                    &first.breakdown_key.to_bits(),\n                    &second.breakdown_key.to_bits(),\n                )\n                .await?;\n                let (value, _) = integer_add::<_, EightBitStep, 1>(\n                    agg_ctx.narrow(&AggregateReportsStep::AddV),\n                    idx.into(),\n                    &first.value.to_bits(),\n                    &second.value.to_bits(),\n                )\n                .await?;\n                Ok::<_, Error>(AggregateableHybridReport::<BK, V> {\n')]),
+    dict(prop="C12", name="tail-sum-by-fold", benign=True,
+         edits=[dict(file='ipa-core/src/protocol/ipa_prf/oprf_padding/insecure.rs', find='    // Computes the right hand side of equation (11) in https://arxiv.org/pdf/2110.08177.pdf\n    let r = E.powf(-epsilon);\n    let a = (1.0 - r) / (1.0 + r - 2.0 * (pow_u32(r, n + 1)));\n    let mut result = 0.0;\n    for k in n - big_delta + 1..=n {\n        result += pow_u32(r, k);\n    }\n    a * result\n}\nfn find_smallest_n(big_delta: u32, epsilon: f64, small_delta: f64) -> u32 {\n    // for a fixed set of DP parameters, finds the smallest n that satisfies equation (11)\n', replace='    // Computes the right hand side of equation (11) in https://arxiv.org/pdf/2110.08177.pdf\n    let r = E.powf(-epsilon);\n    let a = (1.0 - r) / (1.0 + r - 2.0 * (pow_u32(r, n + 1)));\n    // total (unnormalised) mass of the `big_delta` outermost values, summed from the inside out\n    let tail_mass = (n - big_delta + 1..=n).fold(0.0, |acc, k| acc + pow_u32(r, k));\n    a * tail_mass\n}\nfn find_smallest_n(big_delta: u32, epsilon: f64, small_delta: f64) -> u32 {\n    // for a fixed set of DP parameters, finds the smallest n that satisfies equation (11)\n')]),
+    dict(prop="C12", name="truncation-search-by-find", benign=True,
+         edits=[dict(file='ipa-core/src/protocol/ipa_prf/oprf_padding/insecure.rs', find='    // for a fixed set of DP parameters, finds the smallest n that satisfies equation (11)\n    // of https://arxiv.org/pdf/2110.08177.pdf.  This gives the narrowest TruncatedDoubleGeometric\n    // that will satisfy the desired DP parameters.\n    for n in big_delta.. {\n        if small_delta >= right_hand_side(n, big_delta, epsilon) {\n            return n;\n        }\n    }\n    panic!("No smallest n found for OPRF padding DP");\n}\n\nimpl OPRFPaddingDp {\n', replace='    // for a fixed set of DP parameters, finds the smallest n that satisfies equation (11)\n    // of https://arxiv.org/pdf/2110.08177.pdf.  This gives the narrowest TruncatedDoubleGeometric\n    // that will satisfy the desired DP parameters.\n    (big_delta..)\n        .find(|&n| small_delta >= right_hand_side(n, big_delta, epsilon))\n        .expect("No smallest n found for OPRF padding DP")\n}\n\nimpl OPRFPaddingDp {\n')]),
+    dict(prop="C12", name="sampler-accept-by-try-from", benign=True,
+         edits=[dict(file='ipa-core/src/protocol/ipa_prf/oprf_padding/distributions.rs', find='        // samples are truncated to be within [0, 2*shift]\n        loop {\n            let s = self.double_geometric.sample(rng);\n            if s >= 0 && s <= (self.shift_doubled).try_into().unwrap() {\n                return s.try_into().unwrap();\n            }\n        }\n    }\n', replace='        // samples are truncated to be within [0, 2*shift]\n        loop {\n            let s = self.double_geometric.sample(rng);\n            // negative draws do not convert and are rejected like the ones above 2*shift\n            match u32::try_from(s) {\n                Ok(v) if v <= self.shift_doubled => return v,\n                _ => {}\n            }\n        }\n    }\n')]),
+    dict(prop="C07", name="bool-or-delegates-to-or", benign=True,
+         edits=[dict(file='ipa-core/src/protocol/boolean/or.rs', find='\n    BitDecomposed::try_from(\n        ctx.parallel_join(zip(a.iter(), b).enumerate().map(|(i, (a, b))| {\n            let ctx = ctx.narrow(&S::from(i));\n            async move {\n                let ab = a.multiply(b, ctx, record_id).await?;\n                Ok::<_, Error>(-ab + a + b)\n            }\n        }))\n        .await?,\n    )\n', replace='\n    BitDecomposed::try_from(\n        ctx.parallel_join(zip(a.iter(), b).enumerate().map(|(i, (a, b))| {\n            // Each bit is an independent instance of the scalar OR protocol.\n            or::<Boolean, _, _>(ctx.narrow(&S::from(i)), record_id, a, b)\n        }))\n        .await?,\n    )\n')]),
+    dict(prop="C05", name="split-row-and-tag-split-at", benign=True,
+         edits=[dict(file='ipa-core/src/protocol/ipa_prf/shuffle/malicious.rs', find=') -> (S::Share, Gf32Bit) {\n    let mut buf = GenericArray::default();\n    row_with_tag.serialize(&mut buf);\n    (\n        S::Share::deserialize(GenericArray::from_slice(&buf.as_slice()[0..S::TAG_OFFSET]))\n            .unwrap_or(S::Share::ZERO),\n        Gf32Bit::deserialize(GenericArray::from_slice(&buf.as_slice()[S::TAG_OFFSET..]))\n            .unwrap_or(<Gf32Bit as SharedValue>::ZERO),\n    )\n}\n', replace=') -> (S::Share, Gf32Bit) {\n    let mut buf = GenericArray::default();\n    row_with_tag.serialize(&mut buf);\n    let (row_bytes, tag_bytes) = buf.as_slice().split_at(S::TAG_OFFSET);\n    (\n        S::Share::deserialize(GenericArray::from_slice(row_bytes)).unwrap_or(S::Share::ZERO),\n        Gf32Bit::deserialize(GenericArray::from_slice(tag_bytes))\n            .unwrap_or(<Gf32Bit as SharedValue>::ZERO),\n    )\n}\n')]),
+    dict(prop="C05", name="tag-hash-map-then-fold", benign=True,
+         edits=[dict(file='ipa-core/src/protocol/ipa_prf/shuffle/malicious.rs', find='    compute_possibly_empty_hash(iterator.map(|row_entry_iterator| {\n        row_entry_iterator\n            .zip(keys)\n            .fold(<Gf32Bit as SharedValue>::ZERO, |acc, (row_entry, key)| {\n                acc + row_entry * *key\n            })\n    }))\n}\n\n', replace='    compute_possibly_empty_hash(iterator.map(|row_entry_iterator| {\n        row_entry_iterator\n            .zip(keys)\n            .map(|(row_entry, key)| row_entry * *key)\n            .fold(<Gf32Bit as SharedValue>::ZERO, |acc, product| acc + product)\n    }))\n}\n\n')]),
+]
+
 # rules shared between properties: the same edit must be reported under the other property too
 VARIANTS += [dict(v, prop="C05", name=v["name"] + "@C05") for v in VARIANTS
              if v["name"] in ("h1-shuffle-empty-shard-leaves", "sharded-shuffle-empty-shard-leaves", "reshard-closes-channels-on-input-error", "reshard-closes-before-matching-none")]
